@@ -213,7 +213,8 @@ chk("C04", "proof",
     "and every stream, generically in the kinds and in the 'may appear under' relation. What is proved is that the oracle means what the property "
     "says. That the parser emits an accepted stream for every document is NOT proved: the extracted oracle (re-evaluated in Coq on 150 streams "
     "per run) is run over the token streams of enumerated document spaces (60-template line vocabulary to 2 lines, container/inline templates "
-    "to 3 lines, 12-character alphabet to length 4, trigger-line pairs, delimiter-run strings to 7 symbols, the repository's own test corpus).",
+    "to 3 lines, 12-character alphabet to length 4, trigger-line pairs, delimiter-run strings to 7 symbols, the repository's own test corpus), and, "
+    "with every extension switched on, over tilde-run strings in and around links and emphasis, task lists, autolinks, raw HTML and front matter.",
     "Trusted: Coq kernel, extraction (ExtrOcamlBasic only) + driver.ml + OCaml compiler, the token abstraction harness/tokabs.py, direct parser call.",
     "Certified oracle (Coq soundness/completeness proof) run by extraction over enumerated document spaces",
     "DESIGN.md section 4 C04")
@@ -229,7 +230,7 @@ chk("C05", "proof",
     "(3) the tab kernel (Model/Tabs.v): the loop of TabHelper.detabify_string computes the character-wise expansion to four-column tab stops for every text and starting column, "
     "the result has no tab and the length calculate_length reports, and expansion composes along the line; tied to detabify_string / calculate_length on every string with a tab over {a, b, space, tab} to length 5/7 from columns 0-5.",
     "Trusted: Coq kernel + vm_compute, extraction + driver.ml, the position abstraction harness/posabs.py (expected opening text per token kind). "
-    "Leaf-block positions are also compared with the spec model CM's (Spec/RuleSpec.v leaf_positions) on the C03 spaces.",
+    "Leaf-block positions are also compared with the spec model CM's (Spec/RuleSpec.v leaf_positions) on the C03 spaces; every position reported by a heading rule must be a position some token carries.",
     "Certified position oracle + proved delta arithmetic; extraction; enumeration of positioned tokens",
     "DESIGN.md section 4 C05")
 
@@ -269,7 +270,7 @@ chk("C01", "other",
 chk("C03", "other",
     "PARTIAL. 'A specification-compliant parser' is made precise by the Gallina specification model CM (Spec/CMBlock.v: the CommonMark block "
     "structure - leaf blocks, block quotes, lists, tight/loose - plus code spans, emphasis (delimiter-stack algorithm) and numeric character references, written from the specification and the reference strategy, not from PyMarkdown), "
-    "on the fragment F of documents (no tabs, links, images, raw HTML, named entities or backslash escapes; with code spans, emphasis and numeric character references). Theorems (Coq, closed) are about CM: its renderer's escaping lets no raw tag or "
+    "on the fragment F of documents (a tab only between two letters or digits; no links, images, raw HTML, named entities or backslash escapes; with code spans, emphasis and numeric character references). Theorems (Coq, closed) are about CM: its renderer's escaping lets no raw tag or "
     "attribute character through; documents of F contain none of the excluded characters. CM itself is validated on every run against the 348 "
     "CommonMark 0.31.2 examples inside F (all agree) and against the vendored markdown-it-py. That PyMarkdown refines CM is NOT proved: rendered "
     "HTML (up to newlines next to tags) is compared on every document of <= 3 lines over a 23-template leaf vocabulary and a 16-template container "
@@ -284,21 +285,21 @@ chk("C03", "other",
     "DESIGN.md section 4 C03")
 
 chk("C06", "other",
-    "PARTIAL. 'The documented trigger condition' is made precise by the Gallina specification Spec/RuleSpec.v: for 21 rules (MD001, MD003, MD004, MD009, "
+    "PARTIAL. 'The documented trigger condition' is made precise by the Gallina specification Spec/RuleSpec.v: for 22 rules (MD001, MD003, MD004, MD009, MD010, "
     "MD012, MD013, MD018, MD019, MD022, MD023, MD024, MD025, MD026, MD031, MD032, MD035, MD040, MD041, MD046, MD047, MD048) a function from the lines of the "
     "document, the block structure the spec model CM gives them and the rule's own configuration to the lines that must be reported and the lines "
     "about which the documentation (newdocs/src/plugins/rule_md*.md) says nothing definite. It is written from the documentation, not from the rule "
     "implementations. Theorems (Coq, closed) are about the specification: MD013 reports a line exactly when it is longer than the limit of its "
     "category and (unless strict) has a space past it, never in a switched-off category, monotonically in the limits when strict; MD009 exactly the "
     "lines outside code blocks with a positive number of trailing spaces other than br_spaces; MD012 only blank lines; MD047 never on a text ending "
-    "in a newline and always at the last line otherwise; MD001 only at headings of level >= 2. That each rule implements its specification is NOT "
-    "proved: the reported lines are compared on documents of <= 3 lines over a 40-template vocabulary (headings, long lines, trailing spaces, fences, "
-    "breaks, containers), 30 000 4-line documents and the general vocabulary, under 6 configurations that move every documented configuration item, "
+    "in a newline and always at the last line otherwise; MD001 only at headings of level >= 2; MD010 exactly the lines with a tab, and with code_blocks off never a content line of a code block. That each rule implements its specification is NOT "
+    "proved: the reported lines are compared on documents of <= 3 lines over a 44-template vocabulary (headings, long lines, trailing spaces, fences, "
+    "breaks, containers), 30 000 4-line documents, the general vocabulary and 8 000 documents with tabs between letters (in paragraphs, indented and fenced code, fences closed by the end of their container), under 6 configurations that move every documented configuration item, "
     "restricted to documents of the fragment F whose block structure PyMarkdown gets right (the property's premise). Failing inputs of the pinned "
     "tree are listed as known findings; two defects were repaired (a697cd3, f5b9cc5).",
     "Trusted: Coq kernel, extraction + driver.ml, the specification as a reading of the documentation (stated conventions for the reported line of "
     "multi-line constructs; open corners are never counted), the spec model CM, PyMarkdownApi.scan_string.",
-    "Gallina specification of 21 rules over the CM block structure + comparison of reported lines on enumerated documents and configurations (category 'other')",
+    "Gallina specification of 22 rules over the CM block structure + comparison of reported lines on enumerated documents and configurations (category 'other')",
     "DESIGN.md section 4 C06")
 
 chk("C08", "proof",
